@@ -23,7 +23,7 @@ PROPERTY = 'C19'
 D = 'mindsdb'
 RULE = ('cases = texts for parse_sql(text, "mindsdb"): token edits (delete/dup/replace/insert/swap/truncate/garbage) of '
         'corpus statements and grammar derivations re-laid-out over lines with leading blanks / blank lines / comments, '
-        'text-level edits keeping the original layout, illegal characters; judged = rejected by the syntax-error path '
+        'text-level edits keeping the original layout, illegal characters, every truncation of the production-pair sentences of the mindsdb grammar; judged = rejected by the syntax-error path '
         'or the lexer; non-trivial = judged and (error token not first, or input has several lines, or a comment '
         'precedes the error); distinct by text')
 ASSUMPTIONS = ['"first token the grammar cannot accept" is located by bisection over prefix parses, i.e. assumes the LR '
